@@ -339,8 +339,10 @@ def invoke(func, ns, cwd, kernel=None, env=None, stdin_text=None, timeout=25):
                 # drop references to Popen objects while the fake kernel is still in place
                 ns = None
                 _COUNT[0] += 1
-                if _COUNT[0] % 50 == 0:
-                    gc.collect()
+                probe = os.dup(0)
+                os.close(probe)
+                if _COUNT[0] % 50 == 0 or probe > 400:
+                    gc.collect()      # unreachable Popen/pipe objects of earlier paths hold descriptors until collected
     finally:
         signal.signal(signal.SIGINT, old_int)
         signal.signal(signal.SIGTERM, old_term)
